@@ -93,6 +93,7 @@ def contents (pg : Pg κ) (L : List Nat) : List (κ × Nat) := L.flatMap (entrie
 structure WF (pg : Pg κ) (root next : Nat) (g : Ghost κ) : Prop where
   root : g.G root = some (g.H, none, none)
   rng : ∀ p l lo hi, g.G p = some (l, lo, hi) → 0 < p ∧ p < next ∧ bLe lo hi
+  lvl : ∀ p l lo hi, g.G p = some (l, lo, hi) → l ≤ g.H
   int : ∀ p l lo hi, g.G p = some (l + 1, lo, hi) →
     ∃ lm cells b, pg p = some (.internal lm cells b) ∧
       (∀ x ∈ kidsR lo hi lm cells, g.G x.1 = some (l, x.2.1, x.2.2)) ∧ (kidsOf lm cells).Nodup
